@@ -78,6 +78,7 @@ def sweep(L, sym, rng, nrand):
 def certify(ctx, name, goals):
     """goals: list of (label, coq proposition).  Returns list of labels whose goal `interval` could not close."""
     bad = []
+    name = f'{name}_p{os.getpid()}'
     remaining = list(goals)
     for attempt in range(6):
         if not remaining:
